@@ -122,7 +122,11 @@ def _state_map_of(body, op):
     return None
 
 
-def _uses_of_option(body, d):
+SOME_PRESERVING = ('map', 'as_ref', 'as_mut', 'copied', 'cloned', 'as_deref', 'as_deref_mut', 'filter', 'and_then', 'inspect',
+                   'take', 'zip', 'flatten')
+
+
+def _uses_of_option(body, d, depth=0):
     """Success edges for Option/bool local d: [(from_bb, to_bb)]."""
     edges = []
     for bi, bl in enumerate(body.blocks):
@@ -133,6 +137,12 @@ def _uses_of_option(body, d):
             r, p = operand_root(body, t[3][0])
             name = callee(t)[1] or ''
             if r == d and not p:
+                short = name.split('::')[-1]
+                if 'Option::<T>::' in name and short in SOME_PRESERVING and t[4] is not None and not t[4].proj and depth < 5:
+                    # Some(adapter(x)) implies Some(x)
+                    edges += _uses_of_option(body, t[4].local, depth + 1)
+                elif name.endswith('Option::<T>::is_some_and') and t[5] is not None:
+                    edges += _bool_edges(body, t[4].local, True)
                 if name.endswith('as std::ops::Try>::branch') and t[5] is not None:
                     res = t[4].local
                     for bj, bl2 in enumerate(body.blocks):
